@@ -165,12 +165,40 @@ def spell_comp(c):
     if k == 'func':
         return c[1] + '(' + ','.join(c[2]) + ')'
     if k == 'str':
+        if c[2] in ('dq-hex', 'sq-hex'):
+            return _quote_hex(c[1], '"' if c[2] == 'dq-hex' else "'")
         return RV.quote(c[1], '"' if c[2] == 'dq' else "'")
     if k == 'url':
+        if c[2] == 'dq-hex':
+            return 'url(' + _quote_hex(c[1], '"') + ')'
         if c[2] == 'bare':
             return 'url(' + RV.url_bare(c[1]) + ')'
         return 'url(' + RV.quote(c[1], '"' if c[2] == 'dq' else "'") + ')'
     raise ValueError(k)
+
+
+HEXD_ALL = '0123456789abcdefABCDEF'
+CSS_WS = ' \t\r\n\f'
+
+
+def _quote_hex(content, q):
+    """like RV.quote, but line breaks and the letter e-acute are written as hexadecimal escapes *without* a terminator where
+    none is needed (the next character is neither a hexadecimal digit nor CSS white space)"""
+    out = [q]
+    for i, c in enumerate(content):
+        nxt = content[i + 1:i + 2]
+        if c == q or c == '\\':
+            out.append('\\' + c)
+        elif c in '\n\r\f\xe9':
+            out.append('\\%x' % ord(c) + (' ' if (nxt and (nxt in HEXD_ALL or nxt in CSS_WS)) else ''))
+        else:
+            out.append(c)
+    out.append(q)
+    return ''.join(out)
+
+
+# characters that are white space for Python (str.isspace, \s) but ordinary content for CSS, each behind an escape
+TERMINATOR_FOLLOWERS = ['\xa0', '\u3000', '\u2009', '\x0b', '\x1c', '\x85', 'x', '\xe9z']
 
 
 def spell(case):
@@ -781,6 +809,7 @@ def _num_plan(tier):
                 shards.append(['num', sign, i, ''.join(pre), L])
     # integers a double cannot hold (the library keeps them as Python ints: exactness is required for them as well)
     shards.append(['bigint'])
+    shards.append(['terminators'])
     ints56 = ['', '0', '1', '99999999'] if q else INTS
     for sign in SIGNS:
         for i in ints56:
@@ -964,7 +993,15 @@ def run_shard(shard, tier, seed):
     old = guard.signal.signal(guard.signal.SIGALRM, guard._alarm)
     try:
         kind = shard[0]
-        if kind == 'bigint':
+        if kind == 'terminators':
+            for fo in TERMINATOR_FOLLOWERS:
+                for head in ('\xe9', '\n', 'a\xe9', '\xe9\xe9'):
+                    content = head + fo + 'z'
+                    for form in ('dq-hex', 'sq-hex'):
+                        evaluate(res, {'family': 'string', 'comps': [['str', content, form]], 'seps': []}, 2)
+                    evaluate(res, {'family': 'url', 'comps': [['url', content, 'dq-hex']], 'seps': []}, 2)
+            res.sample({'family': 'string', 'comps': [['str', '\xe9\xa0z', 'dq-hex']], 'seps': []})
+        elif kind == 'bigint':
             for sign in SIGNS:
                 for i in BIG_INTS:
                     for u in UNITS:
